@@ -250,7 +250,14 @@ def rule_merge_fresh(ck, repo, R):
               f'Graph.union can merge `{donor}._atoms` / `{donor}._bonds` without having copied `{donor}` on that path: editing the union then edits the source molecule',
               file=f.file, line=merged[0].lineno, func=f.qualname)
     u = [n for n in ast.walk(f.node) if isinstance(n, ast.Assign) and src(n.targets[0]) == 'u']
-    ck.decide(len(u) == 1 and src(u[0].value) == 'self.copy() if copy else self', R, 'union:receiver-copy', src(u[0].value) if u else None,
+    ok_u = len(u) == 1 and src(u[0].value) == 'self.copy() if copy else self'
+    if not ok_u and len(u) == 2:
+        # statement spelling: if copy: u = self.copy() else: u = self  (either way round)
+        for n_ in ast.walk(f.node):
+            if isinstance(n_, ast.If) and len(n_.body) == 1 and len(n_.orelse) == 1 and {id(n_.body[0]), id(n_.orelse[0])} == {id(x) for x in u}:
+                pos, neg = (n_.body[0], n_.orelse[0]) if src(n_.test) == 'copy' else (n_.orelse[0], n_.body[0]) if src(n_.test) == 'not copy' else (None, None)
+                ok_u = pos is not None and src(pos.value) == 'self.copy()' and src(neg.value) == 'self'
+    ck.decide(ok_u, R, 'union:receiver-copy', src(u[0].value) if u else None,
               'Graph.union no longer copies the receiver when copy=True', file=f.file, line=f.lineno)
 
 
